@@ -11,6 +11,7 @@ pub mod c03;
 pub mod c04;
 pub mod topology;
 pub mod c06;
+pub mod c07;
 pub mod c08;
 pub mod c08alloc;
 pub mod c08gen;
@@ -53,6 +54,7 @@ pub fn property(id: &str) -> Option<(GenFn, RunFn)> {
         "C03" => Some((c03::generate, c03::run)),
         "C04" => Some((c04::generate, c04::run)),
         "C06" => Some((c06::generate, c06::run)),
+        "C07" => Some((c07::generate, c07::run)),
         "C08" => Some((c08::generate, c08::run)),
         "C09" => Some((c09::generate, c09::run)),
         "C11" => Some((c11::generate, c11::run)),
